@@ -33,6 +33,7 @@ func init() {
 		Assumptions: []string{"verdicts use the logical sequence counter; the 150us poll only decides which schedule is explored", "run from the -race binary: any race report with a jrhy/mast frame is a violation"},
 		MinObs:      map[string]int64{"flushes_scheduled": 300, "faults_hit": 200, "retries_after_fault": 200, "second_store_flushes": 20, "flushes_ge_40_in_flight": 2},
 		Run:         runC03,
+		EvalObs:     []string{"flushes_scheduled"},
 	})
 }
 
